@@ -17,11 +17,14 @@ variable {σ : Type}
     `./check C03` then names the offending rows. -/
 theorem C03_table : ∀ r ∈ Gen.routes, r.exempt = true ∨ r.guard ≠ .none := by decide
 
-/-- The privilege flag has exactly one non-`False` writer in pyhap, `_pair_verify_two`, and the
-    only route whose handler can reach it is `/pair-verify`. -/
+/-- The privilege flag has exactly one kind of non-`False` writer in pyhap: code of the request
+    handler that is reached (through the intra-class call graph) from the `/pair-verify` handler and
+    from no other route; and the only route whose handler can reach an assignment to the flag at all
+    is `/pair-verify`. Writer sites are named by the routes that reach them — public things only —
+    so a renamed private method changes nothing, while a new writer or a writer reachable from
+    another route makes this fail to build. -/
 theorem C03_only_setter_table :
-    (∀ x ∈ Gen.verifiedWriters, x.2 ≠ "False" →
-        x.1 = "hap_handler.py:HAPServerHandler._pair_verify_two") ∧
+    (∀ x ∈ Gen.verifiedWriters, x.2 ≠ "False" → x.1 = "routes: POST /pair-verify") ∧
     (∀ r ∈ Gen.routes, r.setsVerified = true → r.path = PAIR_VERIFY) := by decide
 
 /-- Non-interference, one request. For every routing table in which all non-exempt routes are
@@ -85,7 +88,7 @@ theorem C03_only_setter (P : Params σ) (w : World σ) (req : Option Req) (body 
   obtain ⟨r, ctx, hres, hs, _⟩ := dispatch_verified_change Gen.routes P w req body h
   exact ⟨r, ctx, hres, C03_only_setter_table.2 r (resolve_mem hres) hs⟩
 
-/-- In the one function that raises the flag (`_pair_verify_two`) the assignment is the last
+/-- In the one function that raises the flag (the pair-verify M3 step) the assignment is the last
     fallible step: a top-level statement with nothing after it that can raise. So an exception
     anywhere in the M3 handler (saving the state, building M4, handing over the session key) leaves
     the flag false: "privileged" and "pair-verify completed" are atomic with respect to exceptions,
